@@ -283,3 +283,25 @@ class Program:
 
     def tu_count(self):
         return sum(len(v) for v in self.units.values())
+
+
+def parse_snippet(code, name="snippet"):
+    """run the fact extractor on a small self-contained C++ translation unit (a positive example for a rule whose count on the
+    library is zero) and return its function definitions as {name: body node}; AnalysisBroken when the extractor fails"""
+    import subprocess, tempfile
+    from . import pipeline
+    os.makedirs(pipeline.WORK, exist_ok=True)
+    d = tempfile.mkdtemp(prefix="snip-", dir=pipeline.WORK)
+    try:
+        src = os.path.join(d, name + ".cpp")
+        out = os.path.join(d, name + ".json")
+        open(src, "w").write(code)
+        r = subprocess.run([pipeline.TOOL, out, d, src, "--", "-x", "c++", "-std=gnu++17", "-resource-dir", pipeline.RESOURCE_DIR, "-Wno-everything"],
+                           stdout=subprocess.PIPE, stderr=subprocess.STDOUT, text=True)
+        if r.returncode != 0 or not os.path.exists(out):
+            raise AnalysisBroken("extractor failed on a rule's positive example: %s" % r.stdout[-400:])
+        unit = json.load(open(out))
+        return {f.get("name") or f.get("n"): f for f in unit.get("functions", []) if f.get("body")}
+    finally:
+        import shutil
+        shutil.rmtree(d, ignore_errors=True)
